@@ -32,6 +32,10 @@ pub enum Step {
     Loops(String),
 }
 
+/// Known-finding class: the emitted parser loops on a grammar that has a derivation cycle A =>+ A
+/// (such a grammar is only accepted when useless nonterminals hide the conflict the cycle would cause).
+pub const CLASS_CYCLE_LOOP: &str = "nontermination-on-derivation-cycle";
+
 pub const STEP_HORIZON: usize = 100_000;
 /// correct tables keep the stacks shorter than the input plus the longest chain of unit reductions
 pub const MAX_STACK: usize = 4_096;
@@ -220,7 +224,11 @@ impl<'a> Explorer<'a> {
         let mut c = self.case.to_json();
         c["word"] = word_json(self.case, &self.word);
         c["word_indices"] = json!(self.word);
-        self.acc.finding(Finding::new("grammar_case", c, what, expected, observed));
+        let mut f = Finding::new("grammar_case", c, what, expected, observed);
+        if f.what.contains("does not terminate") && has_derivation_cycle(&self.case.g) {
+            f = f.with_class(CLASS_CYCLE_LOOP);
+        }
+        self.acc.finding(f);
     }
 
     /// Explores the subtree below the current prefix. `mcfg`: the model's configuration after the prefix
